@@ -400,7 +400,10 @@ func (fgen *funcGen) irInvokeTerm(new ir.Terminator, old *ast.InvokeTerm) error 
 	if oldFuncAttrs := old.FuncAttrs(); len(oldFuncAttrs) > 0 {
 		term.FuncAttrs = make([]ir.FuncAttribute, len(oldFuncAttrs))
 		for i, oldFuncAttr := range oldFuncAttrs {
-			funcAttr := fgen.gen.irFuncAttribute(oldFuncAttr)
+			funcAttr, err := fgen.gen.irFuncAttribute(oldFuncAttr)
+			if err != nil {
+				return errors.WithStack(err)
+			}
 			term.FuncAttrs[i] = funcAttr
 		}
 	}
@@ -503,7 +506,10 @@ func (fgen *funcGen) irCallBrTerm(new ir.Terminator, old *ast.CallBrTerm) error 
 	if oldFuncAttrs := old.FuncAttrs(); len(oldFuncAttrs) > 0 {
 		term.FuncAttrs = make([]ir.FuncAttribute, len(oldFuncAttrs))
 		for i, oldFuncAttr := range oldFuncAttrs {
-			funcAttr := fgen.gen.irFuncAttribute(oldFuncAttr)
+			funcAttr, err := fgen.gen.irFuncAttribute(oldFuncAttr)
+			if err != nil {
+				return errors.WithStack(err)
+			}
 			term.FuncAttrs[i] = funcAttr
 		}
 	}
